@@ -45,7 +45,7 @@ def lcov_part(chk):
             subs = rng.sample(subs, 1500)
         for s in subs:
             cases.append(("token", name, s))
-    for i in range(400 if chk.tier == "quick" else 5000):
+    for i in range(400 if chk.tier == "quick" else 2500):
         name, data = rng.choice(corpus)
         b = bytearray(data)
         for _ in range(rng.randrange(1, 6)):
@@ -63,6 +63,9 @@ def lcov_part(chk):
         a = lcovgen.results_from_impl(r)
         classes[a[0]] = classes.get(a[0], 0) + 1
         worst = max(worst, r.get("_us", 0))
+        if a[0] == "huge" and "lcov-branch-number-alloc" in known:
+            chk.known(known["lcov-branch-number-alloc"])
+            continue
         if a[0] == "crash" and "lcov-branch-number-alloc" in known and \
            (lcovgen.huge_branch_number(data) or ("memory allocation of" in str(r) and "parser::add_branch" in str(r))):
             chk.known(known["lcov-branch-number-alloc"])
@@ -76,8 +79,8 @@ def lcov_part(chk):
         else:
             chk.nontrivial(["lcov", jc["hex"][:64], len(data), jc["branch"]])
     # model / implementation agreement on the outcome class for a sample
-    k = 500 if chk.tier == "quick" else 4000
-    pool = [i for i in range(len(cases)) if not lcovgen.huge_branch_number(cases[i][2], 1 << 12) and "crash" not in impl[i]]
+    k = 500 if chk.tier == "quick" else 1500
+    pool = [i for i in range(len(cases)) if not lcovgen.model_unfriendly(cases[i][2]) and "crash" not in impl[i] and "huge_branch_vector" not in impl[i]]
     idx = rng.sample(pool, min(k, len(pool)))
     exprs = [vlib.app("run_lcov", jcases[i]["branch"], list(cases[i][2])) for i in idx]
     model = vlib.run_model(chk.pid, "Run.Show", exprs)
@@ -99,13 +102,18 @@ def lcov_part(chk):
 
 def run(chk):
     chk.proofs()
+    t = time.time()
     parts = {"lcov": lcov_part(chk)}
+    walls = {"lcov": round(time.time() - t, 1)}
     for mod, fn in (("c14gcov", "run_part"), ("c14jacoco", "run_part"), ("c14gcno", "run_gcno_part")):
         try:
             m = importlib.import_module(mod)
         except ImportError:
             continue
+        t = time.time()
         parts[mod] = getattr(m, fn)(chk)
+        walls[mod] = round(time.time() - t, 1)
+    chk.extra["part_wall_s"] = walls
     chk.extra["parts"] = parts
     chk.cov["rule"] = ("per reader: every prefix (truncation point) of every corpus file (repo fixtures + generated valid files), every single-token substitution by boundary tokens "
                        "(text formats) / every single 32-bit word substitution by boundary values (gcno/gcda), plus seeded multi-point corruptions; each through the real reader "
